@@ -436,6 +436,10 @@ func c19CrashScns() []c19CrashScn {
 type c19Job struct {
 	Scn string
 	K   int
+	// generated scenarios (Scn == "gen"): state reached by Prep, interrupted operation Op, continuation Next
+	Prep []string `json:",omitempty"`
+	Op   string   `json:",omitempty"`
+	Next string   `json:",omitempty"`
 }
 
 type c19Res struct {
@@ -453,6 +457,9 @@ func c19CrashExec(j c19Job) (res c19Res) {
 			s := s
 			sc = &s
 		}
+	}
+	if j.Scn == "gen" {
+		sc = &c19CrashScn{Name: "gen:" + strings.SplitN(j.Op, "|", 2)[0], Prep: j.Prep, Op: j.Op, Next: j.Next}
 	}
 	if sc == nil {
 		return c19Res{Err: "unknown scenario"}
@@ -556,7 +563,172 @@ func c19CrashExec(j c19Job) (res c19Res) {
 	return res
 }
 
+// ---- generated crash scenarios: every state within L operations x every operation offered there x every boundary call ----
+
+func c19GenMenu(w *wworld.World) []string {
+	var ops []string
+	ww := w.Wallets[0]
+	bal := ww.W.GetBalance()
+	if bal < 8 {
+		ops = append(ops, "mint|0|16")
+	}
+	if bal >= 5 && len(w.Tokens) < 2 {
+		ops = append(ops, "send|0|3|0", "send|0|4|1", "sendpk|0|1|2")
+	}
+	for ti, t := range w.Tokens {
+		if t.Kind == "plain" {
+			ops = append(ops, fmt.Sprintf("recv|0|%d|0", ti))
+		}
+	}
+	if bal >= 6 && len(ww.Melts) < 1 {
+		ops = append(ops, "melt|0|4|S", "melt|0|4|P", "melt|0|4|F")
+	}
+	for mi, m := range ww.Melts {
+		if p := w.LN.Payments[m.Hash]; p != nil && p.Status.String() == "Pending" {
+			ops = append(ops, fmt.Sprintf("lnfinal|0|%d|S", mi), fmt.Sprintf("lnfinal|0|%d|F", mi))
+		}
+		ops = append(ops, fmt.Sprintf("checkmelt|0|%d", mi))
+	}
+	if ww.W.PendingBalance() > 0 {
+		ops = append(ops, "reclaim|0")
+	}
+	if len(w.Mints["a"].M.ListKeysets().Keysets) < 2 {
+		ops = append(ops, "rotate|a|100")
+	}
+	return ops
+}
+
+var c19GenSpec = &wSpec{Prop: "C19", Name: "C19-gen", Cfg: wworld.Config{FeeA: 100, Wallets: []wworld.WalletCfg{{Default: "a"}, {Default: "a"}}},
+	Init: []string{"mint|0|16"}, Menu: c19GenMenu, Depth: 9, NoInvariants: true}
+
+func c19CrashableOp(op string) bool {
+	switch strings.Split(op, "|")[0] {
+	case "lnfinal", "rotate", "reload":
+		return false // events outside the wallet process
+	}
+	return true
+}
+
+func runC19CrashGen(c *rt.Ctx, depth int) {
+	// enumerate the distinct states (canonical form) with their shortest history, in job order
+	seen := map[string]bool{}
+	type state struct {
+		hist []string
+		next []string
+	}
+	var states []state
+	frontier := [][]string{{}}
+	for d := 0; d <= depth && len(frontier) > 0; d++ {
+		jobs := make([]any, len(frontier))
+		for i, h := range frontier {
+			jobs[i] = bfs.Job{Spec: c19GenSpec.Name, Hist: h}
+		}
+		results := make([]bfs.Res, len(frontier))
+		c.Pool.Map(jobs, func(i int, r rt.JobResult) {
+			if r.Died {
+				rt.HarnessError("C19 state enumeration %v died: %s", frontier[i], r.Stderr)
+			}
+			json.Unmarshal(r.Out, &results[i])
+			if results[i].Err != "" {
+				rt.HarnessError("C19 state enumeration %v: %s", frontier[i], results[i].Err)
+			}
+		})
+		var next [][]string
+		for i, r := range results {
+			if seen[r.Canon] {
+				continue
+			}
+			seen[r.Canon] = true
+			states = append(states, state{frontier[i], r.Next})
+			for _, op := range r.Next {
+				next = append(next, append(append([]string{}, frontier[i]...), op))
+			}
+		}
+		frontier = next
+	}
+	type cas struct {
+		prep []string
+		op   string
+	}
+	var cases []cas
+	for _, st := range states {
+		for _, op := range st.next {
+			if c19CrashableOp(op) {
+				cases = append(cases, cas{append(append([]string{}, c19GenSpec.Init...), st.hist...), op})
+			}
+		}
+	}
+	jobs := make([]any, len(cases))
+	for i, cs := range cases {
+		jobs[i] = c19Job{Scn: "gen", K: -1, Prep: cs.prep, Op: cs.op, Next: "mint|0|16"}
+	}
+	counts := make([]int, len(cases))
+	c.Pool.Map(jobs, func(i int, r rt.JobResult) {
+		if r.Died {
+			rt.HarnessError("C19 counting run %v + %s died: %s", cases[i].prep, cases[i].op, r.Stderr)
+		}
+		var res c19Res
+		json.Unmarshal(r.Out, &res)
+		if res.Err != "" {
+			rt.HarnessError("C19 counting run %v + %s: %s", cases[i].prep, cases[i].op, res.Err)
+		}
+		counts[i] = len(res.Calls)
+	})
+	var fj []c19Job
+	for i, cs := range cases {
+		for k := 0; k < counts[i]; k++ {
+			fj = append(fj, c19Job{Scn: "gen", K: k, Prep: cs.prep, Op: cs.op, Next: "mint|0|16"})
+		}
+	}
+	evals := 0
+	const chunk = 3000
+	for from := 0; from < len(fj); from += chunk {
+		if c.Expired() {
+			c.Exhaustive = false
+			break
+		}
+		to := from + chunk
+		if to > len(fj) {
+			to = len(fj)
+		}
+		jobs = make([]any, to-from)
+		for i := range jobs {
+			jobs[i] = fj[from+i]
+		}
+		c.Pool.Map(jobs, func(i int, r rt.JobResult) {
+			j := fj[from+i]
+			if r.Died {
+				c.Violate(fmt.Sprintf("C19/gen:%s/crash-at:%d/process-died", j.Op, j.K), "worker died: "+r.Stderr, j)
+				return
+			}
+			var res c19Res
+			json.Unmarshal(r.Out, &res)
+			if res.Err != "" {
+				rt.HarnessError("C19 crash %v + %s k=%d: %s", j.Prep, j.Op, j.K, res.Err)
+			}
+			if res.Skip {
+				return
+			}
+			evals++
+			c.Count("crash_points", 1)
+			c.Count("transitions", 1)
+			c.Distinct(fmt.Sprintf("gencrash|%v|%s|%s", j.Prep, j.Op, res.Fault))
+			for _, v := range res.V {
+				c.Violate("C19/"+v.Key, fmt.Sprintf("(after %v) %s", j.Prep[len(c19GenSpec.Init):], v.What), j)
+			}
+		})
+	}
+	fmt.Printf("  generated crash cases: prefix depth %d, states %d, (state, operation) cases %d, crash points %d of %d\n", depth, len(states), len(cases), evals, len(fj))
+	c.Cov["generated_crash"] = map[string]any{"prefix_depth": depth, "states": len(states), "cases": len(cases), "crash_points": len(fj), "evaluated": evals}
+	c.Cov["rule_crash_generated"] = "the same crash enumeration from every distinct state reachable by at most L operations (L = 1 quick, 3 thorough) over {mint, send x {3, 4 with fees}, send to pubkey, receive, melt x {Succeeded, Pending, Failed}, backend settles / fails, check melt, reclaim, rotation}, for every wallet operation offered in that state and every boundary call of it"
+}
+
 func c19Worker(job json.RawMessage) (any, error) {
+	var sp struct{ Spec string }
+	json.Unmarshal(job, &sp)
+	if sp.Spec == c19GenSpec.Name {
+		return wWorker(map[string]*wSpec{c19GenSpec.Name: c19GenSpec})(job)
+	}
 	var probe struct{ Scn string }
 	json.Unmarshal(job, &probe)
 	if probe.Scn != "" {
@@ -630,11 +802,16 @@ func runC19Crash(c *rt.Ctx) {
 }
 
 func init() {
-	register(&Prop{ID: "C19", Level: "model_checking", QuickBudget: 110 * time.Second, ThoroughBudget: 30 * time.Minute,
+	register(&Prop{ID: "C19", Level: "model_checking", QuickBudget: 200 * time.Second, ThoroughBudget: 30 * time.Minute,
 		Run: func(c *rt.Ctx) {
 			c.Cov["rule"] = "E3 on the wallet world: every history up to the depth bound over the C17 alphabet plus send-to-pubkey, receive of P2PK tokens and restore-then-continue (thorough adds a long scripted history with > 300 outputs on one keyset, a rotation in the middle and restore -> continue -> restore); the transport log yields every B_ submitted in the outputs of /v1/mint/bolt11, /v1/swap, /v1/melt/bolt11 and whether it was signed; with the NUT-13 outputs of every wallet seed derived by the harness: no (keyset, counter) that was already signed is submitted again, the stored counter is past every signed counter; in every state Restore(mnemonic) into an empty directory must yield spendable + pending == mint-side unspent + pending value of that seed's signed outputs (read from the mint stores)"
 			runWSpecs(c, c19Specs(c.Quick()))
 			runC19Crash(c)
+			if c.Quick() {
+				runC19CrashGen(c, 1)
+			} else {
+				runC19CrashGen(c, 3)
+			}
 		},
 		Worker: c19Worker,
 		Replay: func(p string) int {
